@@ -754,6 +754,11 @@ func (e *Enc) special(fr *Frame, st *State, full string, callee *ssa.Function, a
 		r := e.fresh(rt, "rdint")
 		e.assume(st, e.wf(r, st.alloc))
 		return r, true
+	case "sort.Search":
+		// returns an index in [0, n] (the smallest for which the predicate holds, if monotone)
+		r := e.fresh(rt, "search")
+		e.assume(st, fmt.Sprintf("(and (<= 0 %s) (<= %s %s))", r.term(), r.term(), args[0].term()))
+		return r, true
 	case "fmt.Sprintf", "fmt.Sprint":
 		r := e.fresh(rt, "str")
 		return r, true
